@@ -13,7 +13,7 @@
          -> C09_keyed_rebuild_perm (any arithmetic);
    and for the running decimal sums that USED to be computed in hash order:
      exact arithmetic: order-independent (C09_sum_exact_perm,
-         C09_carry_forward_exact_any_order);
+         C09_gains_exact_perm, C09_carry_forward_exact_any_order);
      rust_decimal: order-independent while every partial sum fits 96 bits at
          the common scale (C09_sum_dec_perm_when_fits), not in general
          (C09_sum_dec_unsorted_refuted) - which is why the code now sorts.
@@ -160,6 +160,16 @@ Check C09_carry_forward_exact_any_order : forall (sec_order : list N -> list N) 
   forall t t', costs_with exact CarryClosing sec_order zsort ds = Ok t -> costs exact ds = Ok t' ->
   ct_secs t = ct_secs t' /\ ct_total t = ct_total t' /\ ct_notes t = ct_notes t'.
 Print Assumptions C09_carry_forward_exact_any_order.
+
+(* cumulative_gains.rs under exact arithmetic: even without the sort, the
+   printed total and per-year totals do not depend on the order in which the
+   securities are visited (grouped commutative sums) *)
+Theorem C09_gains_exact_perm : forall m m',
+  Permutation m m' -> gains_out exact m = gains_out exact m'.
+Proof. exact HashOrder.gains_exact_perm. Qed.
+Check C09_gains_exact_perm : forall m m',
+  Permutation m m' -> gains_out exact m = gains_out exact m'.
+Print Assumptions C09_gains_exact_perm.
 
 (* ---- keyed rebuilds: loops that move one entry per key into another map
    (approot.rs get_cumulative_capital_gains / run_acb_app_to_delta_models /
